@@ -142,7 +142,23 @@ Proof.
 Qed.
 Print Assumptions C17_outcomes.
 
-(* --- 7. the guarantee is not bought by refusing everything: against a server that tells the true
+(* --- 7. histories: after ANY sequence of installation calls on the same directory (each call with its
+        own adversarial server, untar behaviour, number of attempts and flags — failed attempts, retries,
+        forced re-installations in any order) every archive ever extracted had the published digest, no
+        extraction happened on a marked dataset, the dataset is marked at the end only if it was marked at
+        the start or a verified archive was extracted, and other datasets' markers are as at the start *)
+Theorem C17_any_history :
+  forall sha name expected (calls : list call) s0,
+  let sf := run_calls sha name expected calls s0 in
+  exists new, log sf = new ++ log s0 /\
+    (forall b m, In (EExtract b m) new -> sha b = expected /\ m = false) /\
+    (is_installed name sf = true ->
+       is_installed name s0 = true \/ exists b, In (EExtract b false) new /\ sha b = expected) /\
+    (forall m, m <> name -> (In m (index sf) <-> In m (index s0))).
+Proof. intros. apply run_calls_post. Qed.
+Print Assumptions C17_any_history.
+
+(* --- 8. the guarantee is not bought by refusing everything: against a server that tells the true
         size and honours Range, from EVERY prior archive state (none, partial, corrupt of any size,
         complete) a forced or first installation ends installed, having extracted verified bytes *)
 Theorem C17_honest_server_installs :
